@@ -353,21 +353,98 @@ func genCase(t *rapid.T) Case {
 }
 
 func genLong(t *rapid.T) Case {
-	// two long sequences with generated overlap: exercises the route-size limit path
-	n1 := rapid.IntRange(1500, 3000).Draw(t, "n1")
-	n2 := rapid.IntRange(1500, 3000).Draw(t, "n2")
-	shift := rapid.SampledFrom([]int{0, 1, 700, 1400, 3000, 5000}).Draw(t, "shift")
+	// Two long sequences that are almost entirely dissimilar (evens against odds) with a few generated
+	// matching elements: the edit-graph search overflows its route buffer after ~1414 rounds and
+	// restarts on the remaining tails, and a match just past a restart point makes the pass after the
+	// restart begin with the edit kind the pass before it ended with.
+	n1 := rapid.IntRange(1450, 2600).Draw(t, "n1")
+	n2 := rapid.IntRange(1450, 2600).Draw(t, "n2")
 	kind := rapid.SampledFrom([]string{"tuple", "list"}).Draw(t, "k")
-	old := starval.V{K: kind, FA: n1, Base: 0}
-	nv := starval.V{K: kind, FA: n2, Base: shift}
-	if rapid.Bool().Draw(t, "mid") {
-		old.E = []starval.V{{K: "str", S: []byte("mid")}}
-		old.FB, old.FA = n1/2, n1-n1/2
+	mk := func(n, parity int, matches map[int]int) starval.V {
+		e := make([]starval.V, n)
+		for i := range e {
+			v := 2*i + parity
+			if m, ok := matches[i]; ok {
+				v = m
+			}
+			e[i] = starval.V{K: "int", I: fmt.Sprint(v)}
+		}
+		return starval.V{K: kind, E: e}
+	}
+	matches := map[int]int{}
+	nm := rapid.IntRange(0, 6).Draw(t, "nmatch")
+	for i := 0; i < nm; i++ {
+		// new[p+d] = old[p]; positions cluster around the restart point
+		var p int
+		if rapid.Bool().Draw(t, "near") {
+			p = rapid.IntRange(1395, 1435).Draw(t, "pnear")
+		} else {
+			p = rapid.IntRange(0, n1-1).Draw(t, "pany")
+		}
+		d := rapid.IntRange(-2, 2).Draw(t, "delta")
+		if p < n1 && p+d >= 0 && p+d < n2 {
+			matches[p+d] = 2 * p
+		}
+	}
+	old := mk(n1, 0, nil)
+	nv := mk(n2, 1, matches)
+	if rapid.IntRange(0, 4).Draw(t, "plain") == 4 {
+		// the old shape as well: two ranges with a generated overlap
+		shift := rapid.SampledFrom([]int{0, 1, 700, 1400, 3000, 5000}).Draw(t, "shift")
+		old = starval.V{K: kind, FA: n1, Base: 0}
+		nv = starval.V{K: kind, FA: n2, Base: shift}
 	}
 	return Case{Old: old, New: &nv}
 }
 
+// restartCase: evens against odds, n elements each, with the single match new[p+d] = old[p].
+func restartCase(n, p, d int, kind string) Case {
+	mk := func(parity int, at, val int) starval.V {
+		e := make([]starval.V, n)
+		for i := range e {
+			v := 2*i + parity
+			if i == at {
+				v = val
+			}
+			e[i] = starval.V{K: "int", I: fmt.Sprint(v)}
+		}
+		return starval.V{K: kind, E: e}
+	}
+	old := mk(0, -1, 0)
+	nv := mk(1, p+d, 2*p)
+	return Case{Old: old, New: &nv}
+}
+
+// TestC16Restart enumerates single matches around the point where the edit-graph search
+// restarts (its route buffer holds 2 000 000 points, i.e. ~1414 rounds on dissimilar input).
+func TestC16Restart(t *testing.T) {
+	type pd struct{ p, d int }
+	var all []pd
+	for p := 1404; p <= 1424; p++ {
+		for d := -1; d <= 2; d++ {
+			all = append(all, pd{p, d})
+		}
+	}
+	stride := 1
+	if run.Quick() {
+		stride = 1
+	}
+	i := -1
+	ev.Enumerate(run, t, "restart", func() (Case, bool) {
+		for {
+			i++
+			if i >= len(all) {
+				return Case{}, false
+			}
+			if i%run.NShards != run.Shard || (i/run.NShards+int(run.Seed))%stride != 0 {
+				continue
+			}
+			return restartCase(1600, all[i].p, all[i].d, "tuple"), true
+		}
+	}, exec)
+}
+
 func TestC16(t *testing.T) {
 	ev.Explore(run, t, "diff", run.N(15000, 120000), genCase, exec)
-	ev.Explore(run, t, "long", run.N(3, 40), genLong, exec)
+	ev.Explore(run, t, "long", run.N(6, 60), genLong, exec)
 }
